@@ -140,9 +140,11 @@ func verifHarness_C20_handler() {
 	obs.streamActive = c20Table(n)
 	balance := 0
 	calls := 0
+	var idxs []int32
 	report := func(idx int32, v int32) {
 		calls++
 		balance += int(v)
+		idxs = append(idxs, idx)
 		obs.ReportStreamValue(idx, v)
 	}
 	var scc config.ShardCountConfig
@@ -182,6 +184,12 @@ func verifHarness_C20_handler() {
 	verifAssert(returned, "handler-returns-for-every-id")
 	verifAssert(!verifMutexHeld(&obs.streamGrowLock), "observer-lock-released-after-stream")
 	verifAssert(balance == 0, "stream-bookkeeping-balanced")
+	// ... per shard: a stream is taken off the books under the shard it was entered under (another
+	// shard's counter belongs to another stream)
+	if len(idxs) == 2 {
+		verifAssert(idxs[0] == idxs[1], "stream-counted-and-uncounted-under-the-same-shard")
+	}
+	verifAssert(len(idxs) == 0 || len(idxs) == 2, "stream-reported-to-the-observer-zero-or-two-times")
 	if err != nil {
 		verifReach("rejected-with-error")
 	} else {
